@@ -111,10 +111,18 @@ def run_ctor(ctx, p):
     cname, form = p['cls'], p['form']
     good, bad = np.asarray(p['good'], dtype=np.float64), np.asarray(p['bad'], dtype=np.float64)
     kind = p['kind']            # group the *array* should belong to (SO3, SE3, se3 ...)
+    if p.get('dtype') == 'float32':
+        bad32 = bad.astype(np.float32)
+        bad = bad32.astype(np.float64)
     d = dist(kind, bad)
     C = getattr(sm, cname)
-    arg = containers(form, good, bad)
+    arg = containers(form, good, bad if p.get('dtype') != 'float32' else bad32)
     sig = dict(api=cname, form=form, defect=p['defect'])
+    if p.get('dtype') == 'float32':
+        sig['dtype'] = 'float32'
+        if p['defect'] == 'none' or d <= BAND:
+            ctx.ood('ctor.reject')       # whether single-precision members are accepted is not stated; only rejection beyond the band is
+            return
     if d <= BAND:
         # near-valid: not judged for rejection; if it is an unperturbed valid member it must be accepted
         if p['defect'] == 'none':
@@ -148,15 +156,25 @@ def run_pred(ctx, p):
     sm = S()
     name, kind = p['pred'], p['kind']
     a = np.asarray(p['a'], dtype=np.float64)
-    d = dist(kind, a)
+    if p.get('dtype') == 'float32':
+        # single-precision input: the array is what its elements say in any precision; the 1e-6 band is a property of the group
+        a32 = a.astype(np.float32)
+        a = a32.astype(np.float64)
+        d = dist(kind, a)
+        given = a32
+    else:
+        d = dist(kind, a)
+        given = a
     f = {'isR': lambda x: base.isR(x), 'isrot': lambda x: base.isrot(x, check=True), 'ishom': lambda x: base.ishom(x, check=True),
          'isrot2': lambda x: base.isrot2(x, check=True), 'ishom2': lambda x: base.ishom2(x, check=True),
          'SO2.isvalid': lambda x: sm.SO2.isvalid(x, check=True), 'SE2.isvalid': lambda x: sm.SE2.isvalid(x, check=True),
          'SO3.isvalid': lambda x: sm.SO3.isvalid(x, check=True), 'SE3.isvalid': lambda x: sm.SE3.isvalid(x, check=True),
          'Twist3.isvalid': lambda x: sm.Twist3.isvalid(x, check=True), 'Twist2.isvalid': lambda x: sm.Twist2.isvalid(x, check=True)}[name]
     sig = dict(api=name, defect=p['defect'])
+    if p.get('dtype') == 'float32':
+        sig['dtype'] = 'float32'
     try:
-        r = f(a)
+        r = f(given)
     except Exception as e:
         ctx.bad('predicate', dict(sig, kind='raised', exc=type(e).__name__), '%s raised %r on %s' % (name, e, core.short(a, 300)))
         return
@@ -165,7 +183,7 @@ def run_pred(ctx, p):
                   lambda: '%s(check=True) is %r for an array %.3g from the group (defect %s): %s' % (name, r, d, p['defect'], core.short(a, 400)))
         ctx.cell('pred', name, p['defect'], core.band(d))
         ctx.nontrivial(name, p['defect'], np.round(a, 9).tolist())
-    elif p['defect'] == 'none':
+    elif p['defect'] == 'none' and p.get('dtype') != 'float32':
         ctx.judge('predicate', bool(r), dict(sig, kind='rejects_primitive', src=p.get('src', 'ref')),
                   lambda: '%s(check=True) is %r for a value produced by %s: %s' % (name, r, p.get('src'), core.short(a, 400)))
         ctx.cell('pred', name, 'valid', p.get('src', 'ref'))
@@ -300,11 +318,11 @@ def valid_member(rng, kind):
     return {'SO3': gen.so3, 'SE3': lambda r: gen.se3(r, hi=1e3), 'SO2': gen.so2, 'SE2': lambda r: gen.se2(r, hi=1e3)}[kind](rng), 'ref'
 
 
-def corrupt(rng, kind, a):
+def corrupt(rng, kind, a, mag=None):
     """-> (bad array, defect kind)"""
     a = np.array(a, dtype=np.float64)
     n = a.shape[0] if kind in ('SO2', 'SO3') else a.shape[0] - 1
-    mag = gen.logu(rng, 1e-12, 1.0)
+    mag = gen.logu(rng, 1e-12, 1.0) if mag is None else mag
     k = rng.integers(7)
     if k == 0:
         i, j = rng.integers(n), rng.integers(n)
@@ -460,6 +478,14 @@ def run(ctx):
         if rng.random() < 0.2:
             bad, defect = (valid_member(rng, kind)[0] if cname not in ('Twist2', 'Twist3') else good), 'none'
         p = dict(cls=cname, form=form, good=good, bad=bad, kind=kind, defect=defect)
+        if rng.random() < 0.12 and cname not in ('Twist2', 'Twist3') and defect != 'none':
+            # single-precision arrays whose defect sits just above the band (a tolerance scaled by the dtype's eps would let them in)
+            other, _ = valid_member(rng, kind)
+            for _try in range(20):
+                bad, defect = corrupt(rng, kind, other, mag=gen.logu(rng, 3e-6, 3e-4))
+                if defect in ('noise_one', 'noise_all', 'scale', 'lastrow'):
+                    break
+            p = dict(cls=cname, form=form, good=good, bad=bad, kind=kind, defect=defect, dtype='float32')
         drive(RUNNERS, ctx, 'ctor', p)
         if ctx.ncases % 1499 == 1:
             ctx.sample(dict(case='ctor', **p))
@@ -469,8 +495,15 @@ def run(ctx):
         defect = 'none'
         if rng.random() < 0.7:
             a, defect = corrupt(rng, kind, a)
+        dt = None
+        if rng.random() < 0.12:
+            for _try in range(20):
+                a2, defect2 = corrupt(rng, kind, valid_member(rng, kind)[0], mag=gen.logu(rng, 3e-6, 3e-4))
+                if defect2 in ('noise_one', 'noise_all', 'scale', 'lastrow'):
+                    a, defect, dt = a2, defect2, 'float32'
+                    break
         for name in PRED_FOR[kind]:
-            drive(RUNNERS, ctx, 'pred', dict(pred=name, kind=kind, a=a, defect=defect, src=src))
+            drive(RUNNERS, ctx, 'pred', dict(pred=name, kind=kind, a=a, defect=defect, src=src, dtype=dt))
     for _ in range(ctx.scale(800, 12000)):
         dim = int(rng.integers(2, 4))
         good, bad, defect = twist_matrix(rng, dim)
